@@ -96,9 +96,85 @@ def module_names(maxlen):
     yield from FIXTURE_NAMES
 
 
+# numeric-literal family: every literal in every position
+_BIG = (10 ** 5000 - 1) // 9  # 5000 digits, all 1 (int() of such a string is refused by Python itself)
+NUM_LITERALS = (
+    "1.0e999", "-2.5e400", "0.1e+310", "1.0e308", "1.0e-400", "4.9e-324", "0.0", "-0.0",
+    "1e5",  # no point: an INT followed by an IDENTIFIER
+    "007", "+1", "-1", str(2 ** 63), str(2 ** 64), str(10 ** 30), "1" * 5000,
+)
+_PM = "prepare_all\n%s\nmeasure_all\n"
+_LOOPBODY = "{ prepare_all; X q[0]; measure_all }\n"
+NUM_TEMPLATES = (
+    ("let-angle", "let a {L}\nregister q[2]\n" + _PM % "Rz q[0] a"),
+    ("let-index", "let a {L}\nregister q[2]\n" + _PM % "X q[a]"),
+    ("let-count", "let a {L}\nregister q[2]\nloop a " + _LOOPBODY),
+    ("let-subcount", "let a {L}\nregister q[2]\nsubcircuit a { X q[0] }\n"),
+    ("let-size", "let a {L}\nregister q[a]\n" + _PM % "X q[0]"),
+    ("let-map-index", "let a {L}\nregister q[2]\nmap b q[a]\n" + _PM % "X b"),
+    ("let-slice-stop", "let a {L}\nregister q[2]\nmap b q[0:a:1]\n" + _PM % "X b[0]"),
+    ("let-slice-step", "let a {L}\nregister q[2]\nmap b q[0:2:a]\n" + _PM % "X b[0]"),
+    ("gate-angle", "register q[2]\n" + _PM % "Rz q[0] {L}"),
+    ("gate-untyped", "register q[2]\nh q[0] {L}\n"),
+    ("macro-index", "register q[2]\nmacro m a { X q[a] }\n" + _PM % "m {L}"),
+    ("macro-count", "register q[2]\nmacro m a { loop a " + _LOOPBODY.rstrip("\n") + " }\nm {L}\n"),
+    ("macro-angle", "register q[2]\nmacro m a { Rz q[0] a }\n" + _PM % "m {L}"),
+    ("loop-count", "register q[2]\nloop {L} " + _LOOPBODY),
+    ("sub-count", "register q[2]\nsubcircuit {L} { X q[0] }\n"),
+    ("reg-size", "register q[{L}]\n" + _PM % "X q[0]"),
+    ("qubit-index", "register q[2]\n" + _PM % "X q[{L}]"),
+    ("map-index", "register q[2]\nmap b q[{L}]\n" + _PM % "X b"),
+    ("slice-start", "register q[2]\nmap b q[{L}:2:1]\n" + _PM % "X b[0]"),
+    ("slice-stop", "register q[2]\nmap b q[0:{L}:1]\n" + _PM % "X b[0]"),
+    ("slice-step", "register q[2]\nmap b q[0:2:{L}]\n" + _PM % "X b[0]"),
+)
+# override_dict values for the let `a` (what a literal can and cannot express)
+OVR_VALUES = (
+    ("inf", float("inf")), ("-inf", float("-inf")), ("nan", float("nan")),
+    ("2**70", 2 ** 70), ("2**63", 2 ** 63), ("2**64", 2 ** 64), ("10**30", 10 ** 30), ("5000 digits", _BIG),
+    ("1.0e308", 1.0e308), ("4.9e-324", 4.9e-324), ("0.0", 0.0), ("-0.0", -0.0), ("100000.0", 1e5),
+    ("1.5", 1.5), ("7", 7), ("1", 1), ("0", 0), ("-1", -1),
+)
+OVR_TEMPLATES = (
+    ("ovr-index", "let a 1\nregister q[2]\n" + _PM % "X q[a]"),
+    ("ovr-angle", "let a 0.5\nregister q[2]\n" + _PM % "Rz q[0] a"),
+    ("ovr-count", "let a 1\nregister q[2]\nloop a " + _LOOPBODY),
+    ("ovr-size", "let a 2\nregister q[a]\n" + _PM % "X q[0]"),
+    ("ovr-slice-stop", "let a 2\nregister q[2]\nmap b q[0:a:1]\n" + _PM % "X b[0]"),
+)
+
+
+def run_override(tname, vkey, ctx):
+    """parse with override_dict={a: value} and expand_let, then emulate -> list of (ep, clause, detail)"""
+    text = dict(OVR_TEMPLATES)[tname]
+    value = dict(OVR_VALUES)[vkey]
+    out = []
+
+    def parse(inject):
+        return impl.parse_jaqal_string(
+            text, override_dict={"a": value}, expand_let=True, autoload_pulses=False,
+            inject_pulses=_injected() if inject else None,
+        )
+
+    for ep, inject in (("ovr-parse", False), ("ovr-run", True)):
+        label, key, c, fails = observe(ep, text, call=lambda inject=inject: parse(inject))
+        ctx.trace()
+        ctx.outcome("%s:%s" % (ep, label))
+        ctx.state((tname, vkey, ep, key if c is None else "OK"))
+        out += [(ep, cl, d) for cl, d in fails]
+        if ep == "ovr-run" and c is not None and _emulable(c):
+            label, key, res, fails = observe(ep, text, call=lambda c=c: impl.run_jaqal_circuit(c))
+            ctx.trace()
+            ctx.outcome("ovr-emulate:%s" % label)
+            ctx.state((tname, vkey, "ovr-emulate", key if res is None else "RAN"))
+            out += [("ovr-emulate", cl, d) for cl, d in fails]
+    return text, out
+
+
 EPS = ("parse", "header", "auto", "run", "runstr")
 BUDGET = 300000  # a normal call uses < 2000 steps
 MAXQ = 5  # emulation is only asked of circuits with at most this many qubits (cost 2^n per gate)
+MAXWORK = 2000  # ... and whose integer loop counts multiply to at most this many statement executions
 
 _EXISTING = ("vpulses", ".vpulses")
 _USE = re.compile(r"from\s+(\S+)\s+usepulses")
@@ -127,6 +203,44 @@ def _nqubits(c):
 
 def _is_int(v):
     return isinstance(v, int) and not isinstance(v, bool)
+
+
+def _loop_work(c):
+    """number of statement executions the loops of the circuit ask for (public IR attributes only;
+    integer loop counts multiply, macro calls are followed with their arguments bound; anything that
+    is not a positive integer counts as 1, because rejecting it is the implementation's job)"""
+
+    def val(x, env):
+        if isinstance(x, impl.Constant):
+            return x.value
+        if isinstance(x, impl.Parameter):
+            return env.get(x.name)
+        return x
+
+    def walk(stmt, env, depth):
+        if depth > 24:
+            return 1
+        if isinstance(stmt, impl.LoopStatement):
+            n = val(stmt.iterations, env)
+            if isinstance(n, float) and n == n and abs(n) != float("inf") and n.is_integer():
+                n = int(n)  # an integral float may be taken as a count
+            n = n if _is_int(n) and n > 0 else 1
+            return n * walk(stmt.statements, env, depth + 1)
+        if isinstance(stmt, impl.BlockStatement):
+            return max(1, sum(walk(x, env, depth + 1) for x in stmt.statements))
+        if isinstance(stmt, impl.GateStatement) and isinstance(stmt.gate_def, impl.Macro):
+            env2 = {name: val(v, env) for name, v in stmt.parameters.items()}
+            return walk(stmt.gate_def.body, env2, depth + 1)
+        return 1
+
+    try:
+        return sum(walk(x, {}, 0) for x in c.body.statements)
+    except Exception:  # noqa: BLE001 - unreadable: do not emulate
+        return 1 << 62
+
+
+def _emulable(c):
+    return _nqubits(c) <= MAXQ and _loop_work(c) <= MAXWORK
 
 
 def _names_missing_module(text):
@@ -178,11 +292,23 @@ def _position_fault(e, text):
     return None
 
 
-def observe(ep, text):
-    """-> (label, state key, result or None, [(clause, detail)])"""
+_HARNESS_GATE_FILES = (os.path.join("mc", "gates.py"), os.path.join("vpulses", "jaqal_gates.py"))
+
+
+def _raised_in_harness_gate(e):
+    tb = e.__traceback__
+    if tb is None:
+        return False
+    while tb.tb_next is not None:
+        tb = tb.tb_next
+    return tb.tb_frame.f_code.co_filename.endswith(_HARNESS_GATE_FILES)
+
+
+def observe(ep, text, call=None):
+    """-> (label, state key, result or None, [(clause, detail)]); `call` replaces the standard invocation"""
     fails = []
     try:
-        return _observe(ep, text, fails)
+        return _observe(ep, text, fails, call)
     finally:
         if "" in sys.modules:
             # removed again so that the verdict on the next text does not depend on this one
@@ -190,10 +316,10 @@ def observe(ep, text):
             fails.append(("sys-modules-empty-key", "%s left an entry with the empty string as key in sys.modules" % ep))
 
 
-def _observe(ep, text, fails):
+def _observe(ep, text, fails, call=None):
     try:
         with fuel(BUDGET):
-            res = _invoke(ep, text)
+            res = call() if call is not None else _invoke(ep, text)
     except impl.JaqalParseError as e:
         pf = _position_fault(e, text)
         if pf:
@@ -213,6 +339,10 @@ def _observe(ep, text, fails):
     except KeyboardInterrupt:
         raise
     except BaseException as e:  # noqa: BLE001 - the oracle is about what escapes
+        if _raised_in_harness_gate(e):
+            # e.g. OverflowError from exp(1j * <5000-digit int>) inside mc.gates.u_Rz: the harness's own
+            # unitary function failed on the value it was handed; the library only passed it on
+            return "error-inside-harness-unitary", ("CB", type(e).__name__), None, fails
         name = type(e).__name__
         fails.append(("escape-%s" % name, "%s escaped from %s: %s" % (name, ep, str(e)[:300])))
         return "escape-%s" % name, ("ESC", name), None, fails
@@ -252,7 +382,7 @@ def pipeline(text, only=None):
             key = ("OK", len(auto.native_gates))
         if want("auto"):
             yield "auto", label, key, fails
-    if parsed is not None and _nqubits(parsed) <= MAXQ:
+    if parsed is not None and _emulable(parsed):
         if want("run"):
             label, key, res, fails = observe("run", text)
             if res is not None:
@@ -530,7 +660,9 @@ class C16(Check):
         "space 1: every string over the character alphabet up to the length bound, alone and after each seed "
         "prefix, plus every single-character insertion/deletion/replacement in the seed programs, plus "
         "`from <name> usepulses *` (alone and before a register) for every one-token module name over . a v 1 _ up "
-        "to the name length bound and the fixture names, each through "
+        "to the name length bound and the fixture names, plus every boundary numeric literal in every numeric "
+        "position (and every boundary value as override_dict entry of a let used as index, angle, count, size, "
+        "slice bound), each through "
         "parse / header parse / autoload parse / emulation; non-trivial = the text gets past the syntax phase "
         "(accepted, or rejected by the builder with a non-syntax JaqalError), distinct by text. "
         "space 2: every call history up to the depth bound over the call alphabet; states = distinct "
@@ -547,10 +679,13 @@ class C16(Check):
         "space 1 runs in a worker where importlib.util is already loaded, so that verdicts on texts do not depend "
         "on the worker's history; the dependence of relative usepulses on that import is judged in space 2, "
         "where every history starts in a fresh interpreter that imports nothing but jaqalpaq",
-        "emulation is only asked of circuits with <= %d qubits (its cost is 2^n steps per gate); "
-        "non-termination is a semi-decision: %d steps of fuel" % (MAXQ, BUDGET),
+        "emulation is only asked of circuits with <= %d qubits (its cost is 2^n steps per gate) whose integer "
+        "loop counts multiply to <= %d statement executions (a loop of 2**63 iterations is not a hang); "
+        "non-termination is a semi-decision: %d steps of fuel" % (MAXQ, MAXWORK, BUDGET),
         "outcomes of calls are compared as canonical result text or exception type, message and position, "
         "with memory addresses masked and numpy.random seeded before each call",
+        "an exception raised inside a gate unitary function supplied by the harness itself (mc/gates.py, the "
+        "fixture pulse module) is not counted as an escape of the library",
         "after every call sys.modules must not contain the empty string as a key (the only process-global "
         "residue that is checked directly; everything else is judged through the outcomes of later calls)",
         "outside the bounds, observed to escape on the tree this was written against: a float literal that "
@@ -568,6 +703,10 @@ class C16(Check):
             "extended_alphabet_max_length": 0 if q else 4,
             "contexts": len(CONTEXTS),
             "seed_programs": len(SEEDS),
+            "numeric_literals": len(NUM_LITERALS),
+            "numeric_positions": len(NUM_TEMPLATES),
+            "override_values": len(OVR_VALUES),
+            "override_positions": len(OVR_TEMPLATES),
             "module_name_alphabet": len(MODCHARS),
             "module_name_max_length": 3 if q else 4,
             "mutation_alphabet": 18 if q else 23,
@@ -607,6 +746,12 @@ class C16(Check):
             yield from self._ext_cases(1, 4)
         for name in module_names(3 if q else 4):
             yield ("mod", name)
+        for tname, _t in NUM_TEMPLATES:
+            for li in range(len(NUM_LITERALS)):
+                yield ("num", tname, li)
+        for tname, _t in OVR_TEMPLATES:
+            for vkey, _v in OVR_VALUES:
+                yield ("ovr", tname, vkey)
         ma = 0 if q else 1
         for sid, seed in enumerate(SEEDS):
             for pos in range(len(seed) + 1):
@@ -666,6 +811,11 @@ class C16(Check):
             return {"seed": SEEDS[sid], "position": pos, "alphabet": len(ALPHABETS[aid])}
         if k == "mod":
             return {"module_name": case[1]}
+        if k == "num":
+            lit = NUM_LITERALS[case[2]]
+            return {"position": case[1], "literal": lit if len(lit) < 60 else "%d digits" % len(lit)}
+        if k == "ovr":
+            return {"text": dict(OVR_TEMPLATES)[case[1]], "override_dict": {"a": case[2]}}
         if k == "hist":
             return {"history": [[c, drv.CALLS[c][0], drv.CALLS[c][1]] for c in case[1]]}
         if k == "tree":
@@ -718,6 +868,14 @@ class C16(Check):
         elif k == "mod":
             use = "from %s usepulses *\n" % case[1]
             judge_texts((use, use + "register q[1]\n"), ctx, "mod")
+        elif k == "num":
+            text = dict(NUM_TEMPLATES)[case[1]].replace("{L}", NUM_LITERALS[case[2]])
+            judge_texts((text,), ctx, "num")
+        elif k == "ovr":
+            text, fails = run_override(case[1], case[2], ctx)
+            ctx.transition(1)
+            for ep, clause, detail in fails:
+                ctx.fail(clause, "[%s] %r with override_dict={'a': %s}: %s" % (ep, text, case[2], detail))
         elif k == "hist":
             self._run_hist(case[1], ctx)
         elif k == "tree":
@@ -842,6 +1000,8 @@ def _count(tier):
             texts += 2 * len(ALPHABETS[case[2]])
         elif case[0] == "mod":
             texts += 2
+        elif case[0] in ("num", "ovr"):
+            texts += 1
     return dict(n), texts
 
 
